@@ -98,10 +98,19 @@ def open_ids():
 # ---------------------------------------------------------------------------------------------------
 # boundary configurations
 # ---------------------------------------------------------------------------------------------------
-def tweak(rng, L):
-  """push a generated leaf onto validator / kernel boundaries"""
+def tweak(rng, L, beyond=False):
+  """push a generated leaf onto validator / kernel boundaries (beyond=True, search tier only: also onto values the validators
+  reject today - if a loosened validator lets them through, the oracle sees the unusable device)"""
   cls, n = L['cls'], L['n']
   pk = lambda xs: xs[rng.randrange(len(xs))]
+  if beyond and rng.random() < .5:
+    if cls == 'SDevice':
+      L['rate_clip'] = (F(1), F(1))
+      L[pk(['capacity', 'efficiency'])] = F(0)
+      return L
+    if cls == 'TDevice':
+      L['efficiency'] = F(0)
+      return L
   if cls == 'IDevice':
     bs = [F(1), F(2), F(3), F(1, 2), F(3, 2)]
     as_ = [F(0), F(0), F(1, 4), F(1), F(2)]
@@ -162,7 +171,7 @@ def gen_leaf_case(rng, k, tier):
   cls = classes[k % len(classes)]
   n = [1, 2, 3, 1, 2, 3, 4, 5][(k // len(classes)) % 8] if tier != 'thorough' else [1, 2, 3, 4, 5, 6, 7, 1, 2, 3][(k // len(classes)) % 10]
   zw = [None, 'some', 'all', None][(k // (len(classes) * 2)) % 4]
-  L = tweak(rng, lg.gen_leaf(rng, cls=cls, n=n, zero_width=zw))
+  L = tweak(rng, lg.gen_leaf(rng, cls=cls, n=n, zero_width=zw), beyond=(tier == 'search'))
   kind = ['lower', 'upper', 'mixed', 'interior'][k % 4]
   s = lg.gen_flow(rng, L, kind, avoid_kinks=False)
   p, _ = lg.gen_price(rng, n)
